@@ -21,7 +21,9 @@ Decided (the part of each algorithm that is data, wiring or encoding, for every 
              value graphs over symbolic state and message bytes (message schedule, Sigma/sigma, Ch, Maj, K, feed-forward);
              BLAKE2b/s AVX and AVX2 compressions equal RFC 7693 F (lane-eq)
   absorb / block-run  which block is compressed when, and that BLAKE2's final flag goes to the last block only (shared with C02)
-Not decided: the compression functions of SHA-1, SHA-512, RIPEMD-160 and Keccak-f as numerical functions."""
+             SHA-512 (impl512::reference), SHA-1 and RIPEMD-160 block functions over 1 and 2 blocks equal FIPS 180-4 / the
+             RIPEMD-160 specification as value graphs
+Not decided: Keccak-f[1600] as a function."""
 import re
 
 from .. import mir, pred, rules, ssa, termbits
@@ -479,4 +481,7 @@ def run(ctx):
     ctx.guard("compress-eq", "sha256", lambda: got3.append(sha2eq.check_sha256(ctx, allp, thorough=(ctx.tier == "thorough"))))
     want3 = 6 + (2 if ctx.tier == "thorough" else 0)
     ctx.check(got3 == [want3], "floor", "compress-eq", "%d SHA-256 block-function runs equal the FIPS 180-4 compression function as value graphs" % want3, "only %s SHA-256 comparisons ran (expected %d)" % (got3, want3), key="floor:compress-eq")
-    ctx.not_decided += ["the compression functions of SHA-1, SHA-512, RIPEMD-160 and Keccak-f as numerical functions (their constants, rotation sets, padding, length fields and output truncation are decided; SHA-256 and BLAKE2 are decided as value graphs in every build configuration)"]
+    got4 = []
+    ctx.guard("compress-eq", "sha512/sha1/ripemd160", lambda: got4.append(sha2eq.check_other(ctx, allp)))
+    ctx.check(got4 == [6], "floor", "compress-eq-other", "SHA-512, SHA-1 and RIPEMD-160 block functions over 1 and 2 blocks equal their specifications as value graphs", "only %s of the 6 SHA-512 / SHA-1 / RIPEMD-160 comparisons ran" % got4, key="floor:compress-eq-other")
+    ctx.not_decided += ["Keccak-f[1600] as a function (its round constants, rotation / lane tables, padding and rate are decided)", ][:1]
